@@ -51,7 +51,7 @@ def correspondence(ctx):
     S.check_other_series(ctx, [S.gen_constants(rng) for _ in range(300 * k)])
     rows = S.country_rows(ctx)
     if ctx.quick:
-        rows = rng.sample(rows, 30)
+        rows = S.extreme_rows(rows) + rng.sample(rows, 22)
         opts = S.gen_options(rng, 5) + [dict(S.BASE_OPTION, scenario=s) for s in rng.sample(S.SCENARIOS, 3)]
     else:
         opts = S.gen_options(rng, 6) + [dict(S.BASE_OPTION, scenario=s) for s in S.SCENARIOS]
